@@ -242,10 +242,12 @@ def make_encoding_replay(delim):
     return replay
 
 
-def make_delimited_write(nrows, widths_of_rows, unique):
+def make_delimited_write(nrows, widths_of_rows, unique, header=0, batches=False):
+    """header: Header property of the CID (the first `header` rows written are not validated); batches: the first row
+    goes through write_row(), every further row through its own write_rows([row]) call"""
     keys = ("t12", "t01")
     checks = ("c,u,IsUnique,%s" % rf.field_names(keys)[0],) if unique else ()
-    text = rf.cid_text(keys, checks=checks)
+    text = rf.cid_text(keys, checks=checks, extra=("d,header,%d" % header,) if header else ())
 
     def go(cells):
         from cutplace import validio, errors, _compat
@@ -274,9 +276,12 @@ def make_delimited_write(nrows, widths_of_rows, unique):
         verdicts = []
         with patched(rf.smart_repr(), (_compat, "csv_writer", lambda stream, **kw: Recorder())):
             writer = validio.Writer(cid, object())
-            for row in rows:
+            written = 0
+            for ri, row in enumerate(rows):
                 ok_row = len(row) == 2 and rf.FIELD_POOL["t12"].ok(row[0]) and rf.FIELD_POOL["t01"].ok(row[1])
-                if ok_row and unique:
+                if written < header:
+                    ok_row = True  # a header row is written as it is
+                if ok_row and unique and written >= header:
                     with rf.untraced():
                         pass
                     key = row[0]
@@ -289,13 +294,17 @@ def make_delimited_write(nrows, widths_of_rows, unique):
                     else:
                         seen[key] = True
                 try:
-                    writer.write_row(row)
+                    if batches and ri > 0:
+                        writer.write_rows([row])
+                    else:
+                        writer.write_row(row)
                     got = True
                 except errors.DataError:
                     got = False
                 verdicts.append((got, ok_row))
                 if ok_row:
                     expected.append(row)
+                    written += 1
             writer.close()
         for got, exp in verdicts:
             if got != exp:
@@ -328,9 +337,12 @@ def make_delimited_write(nrows, widths_of_rows, unique):
         out = io.StringIO(newline="")
         accepted = []
         w = validio.Writer(cid, out)
-        for row in rows:
+        for ri, row in enumerate(rows):
             try:
-                w.write_row(row)
+                if batches and ri > 0:
+                    w.write_rows([row])
+                else:
+                    w.write_row(row)
                 accepted.append(row)
             except errors.DataError:
                 pass
@@ -506,12 +518,14 @@ def build(tier, seed):
                        "fixed CID (widths 2,1; second field may be empty), %d rows with %r items, cells symbolic (len<=width+1), "
                        "header 0..1, line delimiter %s; ASCII cells" % (nrows, widths, delim), budget_s=900 if tier == "quick" else 3000,
                        per_path_timeout=120, replay=rp, functions=FUNCS, stubs=("S-STREAM (recording write)", "S-FMT")))
-    delimited = [(2, (2, 2), False), (2, (2, 2), True), (3, (2, 1, 2), False)]
+    delimited = [(2, (2, 2), False, 0, False), (2, (2, 2), True, 0, False), (3, (2, 1, 2), False, 0, False),
+                 (3, (2, 2, 2), False, 1, True), (2, (2, 2), False, 1, False)]
     if tier == "thorough":
-        delimited += [(3, (2, 2, 2), True), (3, (3, 2, 2), False)]
-    for nrows, widths, unique in delimited:
-        mk, rp = make_delimited_write(nrows, widths, unique)
-        q.append(Query("C14/delimited-write/rows=%d/w=%s%s" % (nrows, ",".join(map(str, widths)), "/unique" if unique else ""),
+        delimited += [(3, (2, 2, 2), True, 0, False), (3, (3, 2, 2), False, 0, False), (3, (2, 2, 2), True, 1, True)]
+    for nrows, widths, unique, header, batches in delimited:
+        mk, rp = make_delimited_write(nrows, widths, unique, header, batches)
+        q.append(Query("C14/delimited-write/rows=%d/w=%s%s%s%s" % (nrows, ",".join(map(str, widths)), "/unique" if unique else "",
+                                                              "/header=%d" % header if header else "", "/write_rows" if batches else ""),
                        "writer-delimited", mk,
                        "delimited CID (Text 1-2 chars; Text <=1 char, may be empty)%s, %d rows with %r items, cells symbolic "
                        "(len<=2)" % (", IsUnique on the first field (keys a/b)" if unique else "", nrows, widths),
